@@ -8,6 +8,7 @@ CONSTANTS
   Strategy = "temp"
   SkipUnreadable = FALSE
   StrictErr = FALSE
+  DirtySession = FALSE
 INIT TInit
 NEXT TNext
 POSTCONDITION Accepted
